@@ -183,6 +183,16 @@ func safeUpdate(d *document.Document, edits []Edit, fail string) (err error, pan
 	return err, false
 }
 
+// docFingerprint is everything C08 says a failed Update must leave unchanged.
+func docFingerprint(d *document.Document) string {
+	p := d.CreateChangePack()
+	ids := ""
+	for _, c := range p.Changes {
+		ids += fmt.Sprintf("%d/%d;", c.ClientSeq(), len(c.Operations()))
+	}
+	return fmt.Sprintf("root=%s local=[%s] cp=%v vv=%s undo=%d", d.Marshal(), ids, d.Checkpoint(), d.VersionVector().Marshal(), d.UndoStackLenForTest())
+}
+
 func cloneMarshal(d *document.Document) (s string) {
 	defer func() {
 		if r := recover(); r != nil {
@@ -321,6 +331,7 @@ func (r *Run) exec(ctx context.Context, idx int, st *Step) StepObs {
 			err = first.Err
 			break
 		}
+		r.Trace[len(r.Trace)-1].Lost = true
 		r.S.Be.WaitBackgroundIdleForVerif()
 		second := rp.A.Resend(ctx, first.Req, false)
 		err = second.Apply()
@@ -330,8 +341,12 @@ func (r *Run) exec(ctx context.Context, idx int, st *Step) StepObs {
 			return obs
 		}
 		var panicked bool
+		before := docFingerprint(rp.A.Doc)
 		err, panicked = safeUpdate(rp.A.Doc, st.Edits, st.Fail)
 		if st.Fail != "" {
+			if after := docFingerprint(rp.A.Doc); after != before {
+				r.problem("failed-update-changed-state", idx, "before=%s after=%s", trunc(before, 400), trunc(after, 400))
+			}
 			// the failure is expected; what must hold afterwards is checked by the caller
 			if err == nil {
 				r.problem("failing-update-succeeded", idx, "updater with fail=%s returned nil", st.Fail)
@@ -405,11 +420,24 @@ func (rn *Runner) RunFull(ctx context.Context, h *History) (*Run, *Outcome) {
 				}); err != nil {
 					return r, &Outcome{Fatal: "setup update: " + err.Error()}
 				}
+				// as client.Attach does after its InitialRoot update: the setup is not undoable
+				_ = r.R[0].A.Doc.ClearHistory()
 				if o := r.Exec(ctx, -1, &Step{Op: "S", C: 0}); o.Err != "" {
 					r.problem("setup-sync-error", -1, "%s", o.Err)
 				}
 			}
 		}
+	}
+	if h.Pin {
+		pc := rn.S.NewClient(r.Project.PublicKey, fmt.Sprintf("pin-%d", rn.seq))
+		if err := pc.Activate(ctx); err != nil {
+			return r, &Outcome{Fatal: "pin activate: " + err.Error()}
+		}
+		pa, err := pc.Attach(ctx, r.DocKey, sim.AttachOpts{})
+		if err != nil {
+			return r, &Outcome{Fatal: "pin attach: " + err.Error()}
+		}
+		defer pa.Close()
 	}
 	for i := range h.Steps {
 		st := &h.Steps[i]
